@@ -348,6 +348,7 @@ theorem seqOf_inv (P : Prims) {v : Val} (h : v.Inv) {items : List TStr} (hq : se
   · subst hq; exact h
   · subst hq; intro x hx; simp only [List.mem_singleton] at hx; subst hx; exact inv_unsafe _
   · subst hq; intro x hx; cases hx
+  · subst hq; intro x hx; simp only [List.mem_singleton] at hx; subst hx; exact inv_unsafe _
 
 /-- `to_liquid_string` under autoescape writes no raw special for a value that satisfies the invariant -/
 theorem outVal_clean {v : Val} (h : v.Inv) : Clean (outVal true v) := by
@@ -364,6 +365,7 @@ theorem outVal_clean {v : Val} (h : v.Inv) : Clean (outVal true v) := by
   | undef => exact clean_nil
   | bool b => cases b <;> decide
   | obj hh t => exact h
+  | other t => exact escape_isClean t
 
 theorem okS_inv {s : TStr} {r : Val} (h : okS s = .ok r) (hs : s.Inv) : r.Inv := by
   simp only [okS, Except.ok.injEq] at h; subst h; exact hs
